@@ -20,8 +20,7 @@ import SslModel.Model.Spec
   `break`, `continue`, `return`, struct literals, the postfix iterator operators, `$`, `? T`.
   Function literals and declarations are folded as `Code::parse` folds them (the body with the
   constants of the enclosing scopes); the second folding at closure creation is not modelled.
-  Outside: modules, `for`, `while x: T = e`, constants that are
-  arrays built by an operator (`a + b` on constant arrays, constant `[v; n]`).
+  Outside: modules, constants that are arrays built by an operator (`a + b` on constant arrays, constant `[v; n]`).
 
   Sources: instruction.rs (`Recreate for Instruction`), bin_op.rs, bin_op/logic.rs,
   bin_op/math/{divide,modulo}.rs, bin_op/shift.rs, at.rs, array.rs, array_repeat.rs, tuple.rs,
@@ -336,8 +335,16 @@ def fold : CEnv → Expr → R Expr
     let (body', _) ← foldSeq true (paramsEnv ps g) body
     .ok (.fn ps r body')
   | _, .modE .. => unsup "module"
-  | _, .whileSet .. => unsup "while-set"
-  | _, .forE .. => unsup "for"
+  | g, .whileSet x ty e body => do
+    -- `loop { if x: T = e body else break }`: the scrutinee, then the body under the binder
+    let e' ← fold g e
+    let body' ← fold ((x, none, false) :: g) body
+    .ok (.whileSet x ty e' body')
+  | g, .forE x it body => do
+    -- `{ $iter := it; loop { ($con, x) := $iter(); if $con body else break } }`
+    let it' ← fold g it
+    let body' ← fold ((x, none, false) :: ("$con", none, false) :: ("$iter", none, false) :: g) body
+    .ok (.forE x it' body')
   | _, .set .. => unsup "declaration in expression position"
   | _, .destruct .. => unsup "declaration in expression position"
   | _, .fndecl .. => unsup "function declaration"
